@@ -489,11 +489,12 @@ def gen_shapes(ck, quick):
         for base in rng.sample(bases, 250):
             s4.append(with_flags(base, [rng.random() < 0.5 for _ in range(4)]))
     else:
-        for base in acyclic_shapes(4, 3):
+        bases = list(acyclic_shapes(4, 3))
+        for base in rng.sample(bases, 6000):
             s4.append(with_flags(base, [rng.random() < 0.5 for _ in range(4)]))
-    pop['acyclic_n=4_m=3' + ('_sampled' if quick else '_exhaustive_shapes')] = s4
+    pop['acyclic_n=4_m=3_sampled'] = s4
     big = []
-    for _ in range(150 if quick else 3000):
+    for _ in range(150 if quick else 1000):
         n = rng.choice([4, 5, 5, 6, 6])
         big.append(random_acyclic(rng, n, rng.randint(1, 4)))
     pop['acyclic_sampled_n<=6_m<=4'] = big
@@ -507,7 +508,7 @@ def gen_shapes(ck, quick):
             gen.append(with_flags(base, [rng.random() < 0.5 for _ in range(3)]))
     pop['general_exhaustive_n<=%d' % (2 if quick else 3)] = gen
     gs = []
-    for _ in range(300 if quick else 4000):
+    for _ in range(300 if quick else 1500):
         gs.append(random_general(rng, rng.choice([2, 3, 3, 4, 4, 5]), rng.randint(1, 3)))
     pop['general_sampled_cycles_dups'] = gs
     return pop
